@@ -40,6 +40,8 @@ use compio_buf::{BufResult, IntoInner};
 use compio_driver::{AsFd, AsRawFd, BorrowedFd, RawFd, SharedFd, ToSharedFd};
 use compio_io::AsyncReadExt;
 use compio_runtime::Attacher;
+#[cfg(unix)]
+use compio_runtime::Runtime;
 use futures_util::future::Either;
 
 /// A process builder, providing fine-grained control
@@ -410,12 +412,54 @@ impl Child {
     }
 }
 
+/// Switch `O_NONBLOCK` of the pipe behind `fd`. The flag belongs to our end of
+/// the pipe only, the child's end stays blocking.
+#[cfg(unix)]
+fn set_nonblocking(fd: &impl AsFd, nonblocking: bool) -> io::Result<()> {
+    let fd = fd.as_fd().as_raw_fd();
+    let flags = unsafe { libc::fcntl(fd, libc::F_GETFL) };
+    if flags == -1 {
+        return Err(io::Error::last_os_error());
+    }
+    let new_flags = if nonblocking {
+        flags | libc::O_NONBLOCK
+    } else {
+        flags & !libc::O_NONBLOCK
+    };
+    if new_flags != flags && unsafe { libc::fcntl(fd, libc::F_SETFL, new_flags) } == -1 {
+        return Err(io::Error::last_os_error());
+    }
+    Ok(())
+}
+
+/// Prepare a pipe created by [`std::process`] for the current driver.
+///
+/// These pipes are blocking. The polling driver issues `read(2)`/`write(2)`
+/// itself once the pipe is ready, and a blocking `write(2)` of more than the
+/// free space does not return a short count: it puts the whole runtime thread
+/// to sleep until the child has taken everything, which deadlocks as soon as
+/// the child waits for the same thread to read its output. So the polling
+/// driver needs non-blocking pipes, like the pipes of `compio-fs`.
+#[cfg(unix)]
+fn prepare_pipe(fd: &impl AsFd) -> io::Result<()> {
+    if Runtime::with_current(|r| r.driver_type()).is_polling() {
+        set_nonblocking(fd, true)?;
+    }
+    Ok(())
+}
+
 /// A handle to a child process's standard output (stdout). See
 /// [`std::process::ChildStdout`].
+///
+/// ## Platform specific
+/// * Unix: with the polling driver the pipe is switched to non-blocking mode;
+///   converting the handle into a [`process::Stdio`] switches it back.
 pub struct ChildStdout(Attacher<process::ChildStdout>);
 
 impl ChildStdout {
     fn new(stdout: process::ChildStdout) -> io::Result<Self> {
+        #[cfg(unix)]
+        prepare_pipe(&stdout)?;
         Attacher::new(stdout).map(Self)
     }
 }
@@ -428,7 +472,12 @@ impl TryFrom<ChildStdout> for process::Stdio {
             .0
             .into_inner()
             .try_unwrap()
-            .map(Self::from)
+            .map(|fd| {
+                // the next owner (usually another child) expects a blocking pipe
+                #[cfg(unix)]
+                let _ = set_nonblocking(&fd, false);
+                Self::from(fd)
+            })
             .map_err(|fd| ChildStdout(unsafe { Attacher::from_shared_fd_unchecked(fd) }))
     }
 }
@@ -452,10 +501,16 @@ impl ToSharedFd<process::ChildStdout> for ChildStdout {
 }
 
 /// A handle to a child process's stderr. See [`std::process::ChildStderr`].
+///
+/// ## Platform specific
+/// * Unix: with the polling driver the pipe is switched to non-blocking mode;
+///   converting the handle into a [`process::Stdio`] switches it back.
 pub struct ChildStderr(Attacher<process::ChildStderr>);
 
 impl ChildStderr {
     fn new(stderr: process::ChildStderr) -> io::Result<Self> {
+        #[cfg(unix)]
+        prepare_pipe(&stderr)?;
         Attacher::new(stderr).map(Self)
     }
 }
@@ -468,7 +523,12 @@ impl TryFrom<ChildStderr> for process::Stdio {
             .0
             .into_inner()
             .try_unwrap()
-            .map(Self::from)
+            .map(|fd| {
+                // the next owner (usually another child) expects a blocking pipe
+                #[cfg(unix)]
+                let _ = set_nonblocking(&fd, false);
+                Self::from(fd)
+            })
             .map_err(|fd| ChildStderr(unsafe { Attacher::from_shared_fd_unchecked(fd) }))
     }
 }
@@ -493,10 +553,16 @@ impl ToSharedFd<process::ChildStderr> for ChildStderr {
 
 /// A handle to a child process's standard input (stdin). See
 /// [`std::process::ChildStdin`].
+///
+/// ## Platform specific
+/// * Unix: with the polling driver the pipe is switched to non-blocking mode;
+///   converting the handle into a [`process::Stdio`] switches it back.
 pub struct ChildStdin(Attacher<process::ChildStdin>);
 
 impl ChildStdin {
     fn new(stdin: process::ChildStdin) -> io::Result<Self> {
+        #[cfg(unix)]
+        prepare_pipe(&stdin)?;
         Attacher::new(stdin).map(Self)
     }
 }
@@ -509,7 +575,12 @@ impl TryFrom<ChildStdin> for process::Stdio {
             .0
             .into_inner()
             .try_unwrap()
-            .map(Self::from)
+            .map(|fd| {
+                // the next owner (usually another child) expects a blocking pipe
+                #[cfg(unix)]
+                let _ = set_nonblocking(&fd, false);
+                Self::from(fd)
+            })
             .map_err(|fd| ChildStdin(unsafe { Attacher::from_shared_fd_unchecked(fd) }))
     }
 }
